@@ -188,6 +188,11 @@ class OpsDomain(SymDomain):
         for c in s.get("clauses", []):
             if c.get("ck") == "schedule":
                 r.schedule = c.get("kind")
+            if c.get("ck") == "collapse":
+                # with collapse(n>1) the units of work are tuples of iterations of the n outer loops; this model takes the
+                # iterations of the outermost loop as units, which would hide a conflict between two inner iterations
+                self.unknown_omp.append(("collapse", ir.locstr(s)))
+                raise AnalysisBroken("collapse clause at %s: units of work of a collapsed loop nest are outside the model" % ir.locstr(s))
         r.loop += 1
         ln = r.loop
         r.loops.append((ln, ir.locstr(s), nowait, r.group))
